@@ -50,6 +50,8 @@ class Contract:
         self.exc_ok = kw.pop("exc_ok", [])
         self.checks = kw.pop("checks", ["safety", "post", "frame"])
         self.decreases = kw.pop("decreases", None)
+        self.runtime_name = kw.pop("runtime_name", None)
+        self.concretize = kw.pop("concretize", None)
         if kw:
             raise TypeError("unknown contract keys %s in %s" % (sorted(kw), name))
 
